@@ -5,9 +5,9 @@ decoding arms of `Tokenizer::next` are turned into a lexer model (c11_util); eve
 shape the value printers of `candid::pretty::candid` can emit is pushed through that model."""
 import re
 
-from facts import AnchorMissing, callee, lit_value, nodes, pat_alternatives, pat_head, peel, short, unblock, walk
+from facts import AnchorMissing, callee, lit_value, nodes, pat_alternatives, pat_head, short, unblock, walk
 from shared import arm_rows, the_match
-from c11_util import (Formatter, Interp, LexError, Newtype, NotEvaluable, Placeholder, STD_ESCAPERS, build_tokenizer,
+from c11_util import (hash_iteration_sites, Formatter, Interp, LexError, Newtype, NotEvaluable, Placeholder, STD_ESCAPERS, Scopes, build_tokenizer,
                       check_quoting_chain, fmt_calls, is_str_ty, keywords_table, render_placeholder, reserved_words,
                       std_escape_forms, strip_ty)
 
@@ -68,111 +68,6 @@ def fn_short(h):
         tr, ty = (a, b) if a in ("Debug", "Display") else (b, a)
         return f"{tr}<{short(ty)}>"
     return k[len(PRINTER):] if k.startswith(PRINTER) else k
-
-
-def pat_bindings(p, ctor, out):
-    """bindings of a pattern: name -> constructor path that directly encloses the binding (or the given default)"""
-    if not isinstance(p, dict):
-        return out
-    k = p.get("k")
-    if k == "bind":
-        out[p["n"]] = ctor
-        if p.get("sub"):
-            pat_bindings(p["sub"], ctor, out)
-    elif k in ("ts", "struct"):
-        cp = (p.get("res") or {}).get("path")
-        for s_ in (p.get("subs") or []):
-            pat_bindings(s_, cp, out)
-        for f in (p.get("fields") or []):
-            pat_bindings(f[1], cp, out)
-    else:
-        for key in ("subs", "pre", "post"):
-            for s_ in p.get(key) or []:
-                pat_bindings(s_, ctor, out)
-        for key in ("sub", "mid"):
-            if p.get(key):
-                pat_bindings(p[key], ctor, out)
-    return out
-
-
-class Scopes:
-    """lexical scoping of one function body: for every use of a local the binding in scope
-    ({origin: constructor path | 'param' | 'closure' | 'let' | 'match', init: expr | None}), and for every node the
-    heads of the innermost enclosing match arm (the `arm context`)."""
-
-    def __init__(self, fn_hir):
-        self.use = {}
-        self.ctx = {}
-        env = {}
-        for p in fn_hir["params"]:
-            for n, ctor in pat_bindings(p, "param", {}).items():
-                env[n] = {"origin": ctor, "init": None}
-        self.visit(fn_hir["body"], env, "")
-
-    def visit(self, n, env, ctx):
-        if isinstance(n, list):
-            for x in n:
-                self.visit(x, env, ctx)
-            return
-        if not isinstance(n, dict):
-            return
-        self.ctx[id(n)] = ctx
-        k = n.get("k")
-        if k == "path":
-            r = n.get("res") or {}
-            if r.get("kind") == "Local":
-                self.use[id(n)] = env.get(r.get("path"))
-            return
-        if k == "block":
-            env2 = dict(env)
-            for st in n.get("stmts") or []:
-                self.ctx[id(st)] = ctx
-                if st.get("k") == "slet":
-                    if st.get("init") is not None:
-                        self.visit(st["init"], env2, ctx)
-                    if st.get("els"):
-                        self.visit(st["els"], env2, ctx)
-                    single = st["pat"].get("k") == "bind" and not st["pat"].get("sub")
-                    for nm, ctor in pat_bindings(st["pat"], "let", {}).items():
-                        env2[nm] = {"origin": ctor, "init": st.get("init") if single else None}
-                else:
-                    self.visit(st, env2, ctx)
-            if n.get("e") is not None:
-                self.visit(n["e"], env2, ctx)
-            return
-        if k == "match":
-            self.visit(n["scrut"], env, ctx)
-            for a in n["arms"]:
-                env2 = dict(env)
-                for nm, ctor in pat_bindings(a["pat"], "match", {}).items():
-                    env2[nm] = {"origin": ctor, "init": None}
-                heads = [pat_head(x) for x in pat_alternatives(a["pat"])]
-                names = [short(hd) for hd in heads if isinstance(hd, str) and "::" in hd]
-                ctx2 = "|".join(names) if names and n.get("src") == "Normal" else ctx
-                if a.get("guard") is not None:
-                    self.visit(a["guard"], env2, ctx2)
-                self.visit(a["body"], env2, ctx2)
-            return
-        if k == "if":
-            env2 = dict(env)
-            for ln in nodes(n["c"], "let"):
-                for nm, ctor in pat_bindings(ln["pat"], "let", {}).items():
-                    env2[nm] = {"origin": ctor, "init": None}
-            self.visit(n["c"], env2, ctx)
-            self.visit(n["t"], env2, ctx)
-            if n.get("e") is not None:
-                self.visit(n["e"], env, ctx)
-            return
-        if k == "closure":
-            env2 = dict(env)
-            for p in n.get("params") or []:
-                for nm, ctor in pat_bindings(p, "closure", {}).items():
-                    env2[nm] = {"origin": ctor, "init": None}
-            self.visit(n["body"], env2, ctx)
-            return
-        for key, v in n.items():
-            if isinstance(v, (dict, list)) and key not in ("res", "callee", "v", "mac", "ga", "pat"):
-                self.visit(v, env, ctx)
 
 
 class Flow:
@@ -389,8 +284,9 @@ def run(chk, facts, tier, only=None):
                     t = next((x for x in hexctx if x[1] == "1"), hexctx[0])
                     b0 = [b for x, b, _ in fl if x == t][0]
                     g0 = [g for x, _, g in fl if x == t][0]
-                    what.append(f"followed by a hex digit it is read as a byte escape (e.g. text {vis(t)!r} is printed "
-                                f"\"{vis(b0)}\" and re-read as bytes {g0.hex()})")
+                    what.append(f"followed by a hex digit the text is re-read differently (e.g. text {vis(t)!r} is printed "
+                                f"\"{vis(b0)}\" and re-read as bytes {g0.hex()} instead of {t.encode('utf-8', 'surrogatepass').hex()}: "
+                                f"the sub-lexer's Byte rule `\\xx` takes two hex digits after a backslash)")
                 if errs:
                     t = errs[0]
                     b0 = [b for x, b, _ in fl if x == t][0]
@@ -765,9 +661,9 @@ def run(chk, facts, tier, only=None):
                 toks = toks[1:]
             if len(toks) == 1 and toks[0][0] == "Decimal":
                 return sign, toks[0][1]
-            if len(toks) == 1 and toks[0][0] == "Hex" and toks[0][1].startswith(hex_prefix):
-                # parse_number strips the prefix it knows; the grammar converts base 16 to decimal
-                return sign, str(int(toks[0][1][len(hex_prefix):].replace(sep, ""), 16))
+            if len(toks) == 1 and toks[0][0] == "Hex" and any(toks[0][1].startswith(hp) for hp in hex_prefixes):
+                # parse_number strips the prefixes it knows; the grammar converts base 16 to decimal
+                return sign, str(int(toks[0][1][2:].replace(sep, ""), 16))
             return [(sign, "Sign")] + toks if sign else toks
 
         # value of a Decimal token = the slice with the separators removed (parse_number): extract the filtered character
@@ -779,7 +675,7 @@ def run(chk, facts, tier, only=None):
         chk.ok("parse_number:separator", f"parse_number drops {sep!r}")
         pref = [lit_value(n["args"][0]) for n in walk(pn["body"]) if n.get("k") == "mcall" and n["m"] == "starts_with"
                 and isinstance(lit_value(n["args"][0]), str)]
-        hex_prefix = pref[0] if len(pref) == 1 else "\0"     # only a prefix parse_number strips is a readable hex literal
+        hex_prefixes = [x for x in pref if len(x) == 2]      # only a prefix parse_number strips is a readable hex literal
 
         h = c.fn(r"Debug for candid::types::value::IDLValue>::fmt$")
         chk.analysed(h["key"])
@@ -845,6 +741,18 @@ def run(chk, facts, tier, only=None):
                 check_number_placeholder(chk, c, interp, fl, lex_number, sep, f"number:{X}", X, NUMERIC_VARIANTS[X], r, ph, where)
         for X in sorted(set(NUMERIC_VARIANTS) - seen_numeric):
             chk.bad(f"number:{X}", f"Debug for IDLValue has no arm printing IDLValue::{X}")
+        # booleans print as the Boolean token
+        brow = [r for r in arm_rows(m) if any(hd[0] == IV + "Bool" for hd in r["heads"])]
+        if len(brow) == 1:
+            fcs = fmt_calls(brow[0]["body"])
+            ok = len(fcs) == 1 and len(fcs[0].parts) == 1 and isinstance(fcs[0].parts[0], Placeholder) \
+                and fcs[0].parts[0].trait == "display" and strip_ty(fcs[0].parts[0].ty) == "bool" \
+                and all([t[0] for t in model.tokenize(w)] == ["Boolean"] for w in ("true", "false"))
+            chk.expect(ok, "bool:Debug", f"Debug for IDLValue::Bool must print the bool with Display (`true`/`false`, the lexer's Boolean token); "
+                                         f"found {fcs and vis(fcs[0].template())!r}", f"{h['span']['file']}:{brow[0]['ln']}",
+                       ok_detail="`true`/`false` lex as Boolean")
+        chk.assume("the grammar's value productions (NumLiteral = sign? decimal|hex|float, AnnVal = Arg ':' Typ, Name = id | text) are "
+                   "as in grammar.lalrpop: the LR tables are not in the fact files, only the token shapes are checked")
         # number_to_string (Display path for floats, public helper): same table for integers
         nh = c.fn(r"pretty::candid::value::number_to_string$")
         chk.analysed(nh["key"])
@@ -946,8 +854,8 @@ def run(chk, facts, tier, only=None):
             g = c.fn(fn_re)
             gm = the_match(g, r"IDLValue$", 5)
             rows = [r for r in arm_rows(gm) if any(hd[0] == IV + "Opt" for hd in r["heads"])]
-            guarded = [r for r in rows if r["guard"] is not None and any((callee(n) or "").endswith("value::has_type_annotation")
-                                                                          for n in walk(r["guard"]))]
+            guarded = [r for r in rows if r["guard"] is not None
+                       and (callee(unblock(r["guard"])) or "").endswith("value::has_type_annotation")]
             first_is_guarded = bool(rows) and bool(guarded) and rows[0] is guarded[0]
             paren = False
             if guarded:
@@ -965,21 +873,20 @@ def run(chk, facts, tier, only=None):
         n = 0
         bad = 0
         for b in c.bodies.values():
-            if not (b.key.startswith(PRINTER) or re.search(LABEL_DISPLAY, b.key) or b.key.startswith("candid::pretty::utils::")
-                    or b.key.startswith("candid::utils::pp_num_str")):
+            if not (b.key.startswith(VALUE_MOD) or re.search(LABEL_DISPLAY, b.key) or b.key.startswith("candid::pretty::utils::")
+                    or b.key.startswith("candid::utils::pp_num_str")
+                    or re.search(r"^candid::pretty::candid::(ident_string|needs_quote|is_keyword|is_valid_as_id|pp_text|pp_label|pp_label_raw)\b", b.key)):
                 continue
             n += 1
             chk.analysed(b.key)
-            for bb, t, cal in b.call_sites():
-                ga = ((t["f"].get("k") or {}).get("ga") or []) if isinstance(t.get("f"), dict) else []
-                if cal and (re.search(r"hash::(map::HashMap|set::HashSet)<.*>::(iter|keys|values|into_iter|drain|iter_mut|values_mut|into_keys|into_values)$", cal)
-                            or ("IntoIterator" in cal and any("HashMap" in (g or "") or "HashSet" in (g or "") for g in ga))):
-                    bad += 1
-                    chk.bad(f"hash-iter:{b.key}", f"{b.key} iterates a HashMap/HashSet ({cal}): the printed text would depend on the hasher",
-                            where=f"{b.span['file']}:{t.get('ln')}")
+            sites = hash_iteration_sites(b)
+            if sites:
+                bad += 1
+                chk.bad(f"hash-iter:{b.key}", f"{b.key} iterates a HashMap/HashSet ({sites[0][0]}): the printed text would depend on the hasher",
+                        where=f"{b.span['file']}:{sites[0][1]}")
         if not bad:
-            chk.ok("no-hash-iteration", f"{n} bodies of pretty/candid.rs, pretty/utils.rs, pp_num_str and Display for Label contain no HashMap/HashSet iteration")
-        chk.floor("printer bodies scanned for unordered iteration", n, 50)
+            chk.ok("no-hash-iteration", f"{n} bodies (pretty::candid::value, the identifier quoter, pretty::utils, pp_num_str, Display for Label) contain no HashMap/HashSet iteration")
+        chk.floor("printer bodies scanned for unordered iteration", n, 25)
 
     for rid, desc, fn in (("C11.R1", "escape forms of the value printers are decoded by the string sub-lexer to the same scalar in every context; no raw text sink", r1),
                           ("C11.R2", "identifier-shaped lexer tokens are in KEYWORDS; quoting chain intact; named labels never printed raw", r2),
@@ -1047,6 +954,7 @@ def check_number_placeholder(chk, c, interp, fl, lex_number, sep, key, X, ty, ro
         return
     samples = samples_for(ty)
     outs = []
+    interp.scopes = fl.sc
     try:
         for v in samples:
             val = interp.ev(ph.expr, {names[0]: v})
@@ -1063,6 +971,8 @@ def check_number_placeholder(chk, c, interp, fl, lex_number, sep, key, X, ty, ro
     except NotEvaluable as e:
         chk.bad(key, f"anchor moved: the number printed for IDLValue::{X} is outside the evaluable fragment: {e}", where)
         return
+    finally:
+        interp.scopes = None
     bad = first_bad_number(outs, lex_number, sep)
     chk.expect(bad is None, key,
                f"Debug for IDLValue::{X} prints {bad and bad[1]!r} for {bad and show_val(bad[0])}, which the lexer reads as "
